@@ -55,6 +55,22 @@ def run_group(ctx, call, seed):
         _tok_group(ctx, call, seed)
 
 
+# ----------------------------------------------------------------------------- environments
+def _invoke(name, fn):
+    """run fn() under the ambient setting a variant names (results must not depend on it)."""
+    if name == "float64-default":
+        old = torch.get_default_dtype()
+        torch.set_default_dtype(torch.float64)
+        try:
+            return fn()
+        finally:
+            torch.set_default_dtype(old)
+    if name == "inference-mode":
+        with torch.inference_mode():
+            return fn()
+    return fn()
+
+
 # --------------------------------------------------------------------------------- layouts
 def _layout(t, kind):
     if t is None:
@@ -147,6 +163,10 @@ SLICER_VARIANTS = [
     ("plain-after-other-shapes", True), ("offset-view", False), ("transposed-dense", True),
     ("triple-outermost", False), ("int32-lens", True), ("other-input-dtype", False),
     ("garbage-beyond-in_lens", True), ("garbage-beyond-in_lens+offset-view", False), ("larger-instance", True),
+    ("float64-default", False), ("inference-mode", True),
+    # compiled forms of the module (tests/test_feats.py exercises both); example input of another shape / values
+    ("scripted", "script"), ("rows-reversed-scripted", "script"), ("full-rows-in_lens-omitted-scripted", "script"),
+    ("traced", "trace"), ("rows-reversed-traced", "trace"),
 ]
 
 
@@ -159,6 +179,7 @@ def _slicer_group(ctx, call, seed):
     base = _slicer_base(policy, seed)
     big = _slicer_base(policy, seed, large=True)
     module = M.SliceSpectData(policy, wt, v, l)  # ONE object for the whole history
+    scripted = traced = None
     kept = kept_mod = None
     middle = (lambda a, b: O.fixed_middle(wt, l, a, b)) if policy == "fixed" else None
     variants = list(SLICER_VARIANTS)
@@ -171,11 +192,11 @@ def _slicer_group(ctx, call, seed):
             i = int(name.split("-")[-1])
             sg, o = C.SEGS[i // len(REF_OTHERS)], REF_OTHERS[i % len(REF_OTHERS)]
             xs, lens, others, T = [[[seed + 5, sg[0], sg[1]]]], [1], [o], 1
-        elif name == "full-rows-in_lens-omitted":
+        elif name.startswith("full-rows-in_lens-omitted"):
             keep = [n for n in range(len(xs)) if lens[n] == T]
             xs, lens = [xs[n] for n in keep], [lens[n] for n in keep]
             others = None if others is None else [others[n] for n in keep]
-        elif name == "rows-reversed":  # same shapes as the call before it, other values
+        elif name.startswith("rows-reversed"):  # same shapes as the call before it, other values
             xs, lens, others = xs[::-1], lens[::-1], None if others is None else others[::-1]
         elif name == "single-row":
             n = (len(xs) * 2) // 3
@@ -195,8 +216,10 @@ def _slicer_group(ctx, call, seed):
                 x, il, ol = _layout(x, kind), _layout(il, kind), _layout(ol, kind)
         if name == "int32-lens":
             il, ol = il.int(), None if ol is None else ol.int()
-        if name == "full-rows-in_lens-omitted":
+        if name.startswith("full-rows-in_lens-omitted"):
             il = None
+        if use_module == "trace" and ol is None:
+            ol = il.clone()  # a traced module takes all three tensors (unused by this policy)
         sig0 = {"api": "slice_spect_data", "policy": policy, "window_type": wt, "valid_only": v,
                 "lobe_pos": l > 0, "variant": "one-token" if name.startswith("one-token") else name,
                 "via_module": use_module}
@@ -204,10 +227,20 @@ def _slicer_group(ctx, call, seed):
         ctx.case(len(xs), sum(1 for r in exp if r))
         try:
             with Unchanged(x, il, ol):
-                if use_module:
-                    out = module(x, il, ol)
+                if use_module == "script":
+                    if scripted is None:
+                        scripted = torch.jit.script(M.SliceSpectData(policy, wt, v, l))
+                    out = scripted(x, il, ol)
+                elif use_module == "trace":
+                    if traced is None:
+                        ex = torch.zeros((1, T + 3) + tuple(x.shape[2:]), dtype=x.dtype)
+                        one = torch.ones(1, dtype=torch.long)
+                        traced = torch.jit.trace(M.SliceSpectData(policy, wt, v, l), (ex, one, one.clone()))
+                    out = traced(x, il, ol)
+                elif use_module:
+                    out = _invoke(name, lambda: module(x, il, ol))
                 else:
-                    out = F.slice_spect_data(x, il, ol, policy, wt, v, l)
+                    out = _invoke(name, lambda: F.slice_spect_data(x, il, ol, policy, wt, v, l))
             slices, sources = C._unpack(out)
         except GuardViolation as e:
             ctx.violation(dict(sig0, symptom="argument-modified"), vcase, {"error": str(e)})
@@ -272,6 +305,9 @@ TOK_VARIANTS = [
     ("plain-after-other-shapes", True), ("offset-view", False), ("triple-outermost", True),
     ("slices-stack-T", False), ("transposed-dense", True), ("int32-ref_lens-and-slices", False),
     ("garbage-beyond-ref_lens", True), ("garbage-beyond-ref_lens+offset-view", False), ("larger-instance", False),
+    ("float64-default", False), ("inference-mode", True),
+    ("scripted", "script"), ("rows-reversed-scripted", "script"), ("narrower-ref_lens-omitted-scripted", "script"),
+    ("traced", "trace"), ("rows-reversed-traced", "trace"),
 ]
 
 
@@ -283,6 +319,7 @@ def _tok_group(ctx, call, seed):
     base = _tok_base(seed)
     big = _tok_base(seed, large=True)
     module = M.ChunkTokenSequencesBySlices(partial, retain)
+    scripted = traced = None
     kept = kept_mod = None
     variants = list(TOK_VARIANTS)
     ones = [(sg, a, b) for sg in C.SEGS_LEGAL for a, b in C.SLICES if (a + 2 * b + sg[0]) % 3 == 0]
@@ -294,10 +331,10 @@ def _tok_group(ctx, call, seed):
             sg, a, b = ones[int(name.split("-")[-1])]
             rows = [([(seed + 10, sg[0], sg[1])], 1, a, b)]
             lens_given = int(name.split("-")[-1]) % 4 < 2
-        elif name == "narrower-ref_lens-omitted":
+        elif name.startswith("narrower-ref_lens-omitted"):
             rows = [(ref[:2], 2, a, b) for ref, n, a, b in rows[::7]]
             lens_given = False
-        elif name == "rows-reversed":  # same shapes as the call before it, other values
+        elif name.startswith("rows-reversed"):  # same shapes as the call before it, other values
             rows = rows[::-1]
         elif name == "single-row":
             rows = [rows[(len(rows) * 2) // 3]]
@@ -322,10 +359,19 @@ def _tok_group(ctx, call, seed):
         vcase = dict(case, variant=name)
         try:
             with Unchanged(refs, slices, ref_lens):
-                if use_module:
-                    out = module(refs, slices, ref_lens)
+                if use_module == "script":
+                    if scripted is None:
+                        scripted = torch.jit.script(M.ChunkTokenSequencesBySlices(partial, retain))
+                    out = scripted(refs, slices, ref_lens)
+                elif use_module == "trace":
+                    if traced is None:
+                        ex = (torch.tensor([[[5, 1, 2]]]), torch.tensor([[0, 9]]), torch.tensor([1]))
+                        traced = torch.jit.trace(M.ChunkTokenSequencesBySlices(partial, retain), ex)
+                    out = traced(refs, slices, ref_lens)
+                elif use_module:
+                    out = _invoke(name, lambda: module(refs, slices, ref_lens))
                 else:
-                    out = F.chunk_token_sequences_by_slices(refs, slices, ref_lens, partial, retain)
+                    out = _invoke(name, lambda: F.chunk_token_sequences_by_slices(refs, slices, ref_lens, partial, retain))
             chunked, clens = out
             if chunked.ndim != 3 or chunked.size(0) != N or chunked.size(2) != 3 or clens.shape != (N,):
                 raise AssertionError(f"shapes {tuple(chunked.shape)} {tuple(clens.shape)}")
